@@ -51,15 +51,25 @@ Proof. exact short_segment_unreachable. Qed.
 Print Assumptions C10_short_segment_unreachable.
 
 (* every listed segment after the first that was not opened by the audio-driven reap starts its video with
-   a key frame whose elementary stream begins AUD, SPS, PPS, start code.  Full statement (no s_aud guard)
-   is false: C10_long_gop_segment_refuted (D35, known finding). *)
+   a key frame whose elementary stream begins AUD, SPS, PPS, start code, where SPS/PPS are the stream's parameter
+   sets that were current when that key frame was packetized (w_sps/w_pps; the sets are part of the history:
+   OSetPs puts a new pair in force for the operations after it, see C10_written_video_ps).  Full statement
+   (no s_aud guard) is false: C10_long_gop_segment_refuted (D35, known finding). *)
 Theorem C10_segment_starts_with_key : forall c ops g,
   forallb op_wf ops = true ->
   let s := steps c (init c) ops in
   In g (pl s) -> s_seq g <> 1 -> s_aud g = false ->
-  exists w, first_video (s_frames g) = Some w /\ w_key w = true /\ is_prefix (key_header c) (w_es w) = true.
+  exists w, first_video (s_frames g) = Some w /\ w_key w = true /\
+            is_prefix (key_header_ps (w_sps w) (w_pps w)) (w_es w) = true.
 Proof. exact segment_starts_with_key. Qed.
 Print Assumptions C10_segment_starts_with_key.
+
+(* a frame operation under configuration c adds only video frames that record c's SPS/PPS (the pair in force) *)
+Theorem C10_written_video_ps : forall c f s g w,
+  In g (pl (write_frame c f s) ++ curl (write_frame c f s)) -> In w (s_frames g) -> w_pid w = VPID ->
+  (exists g0, In g0 (pl s ++ curl s) /\ In w (s_frames g0)) \/ (w_sps w = c_sps c /\ w_pps w = c_pps c).
+Proof. exact write_frame_ps. Qed.
+Print Assumptions C10_written_video_ps.
 
 (* the guard is vacuous for a stream without audio *)
 Theorem C10_video_only_never_audio_reap : forall c fs,
@@ -126,6 +136,7 @@ Definition nv_cfg : cfg :=
   {| c_frag := 1; c_rate := 44100; c_mem := true; c_copy := true; c_path := [47; 97]; c_sps := [103]; c_pps := [104];
      c_pick := fun _ => O |}.
 Definition nv_ops : list op := map (fun i => OFrame (d19_key i)) [0; 1; 2; 3; 4; 5; 6; 7; 8] ++ [OFetch 2; ORead 0; OClose].
+Definition nv_ops_ps : list op := OSetPs [103; 1] [104; 2] :: nv_ops.
 Example C10_nonvacuous :
   wf nv_cfg nv_ops = true /\ 1 <= c_frag nv_cfg /\
   ok nv_cfg [116] true nv_ops (model nv_cfg [116] nv_ops) = true /\
